@@ -52,6 +52,10 @@ func (c *Coder) Encode(m message.Message, buf []byte) (int, error) {
 	if !message.ValidateType(m.Type) {
 		return -1, fmt.Errorf("invalid Type(%v)", m.Type)
 	}
+	if m.Code > 0xff {
+		// the header has one byte for the code: a larger value would be truncated
+		return -1, fmt.Errorf("invalid Code(%v)", uint16(m.Code))
+	}
 	size, err := c.Size(m)
 	if err != nil {
 		return -1, err
